@@ -1,6 +1,6 @@
 import Driver.Proto
 import Driver.C07
-import MediaSan.Vp8l.BitBuf
+import MediaSan.Vp8l.BitTrace
 namespace Driver.C19
 open MediaSan MediaSan.Vp8l
 
@@ -13,41 +13,31 @@ def treeLens : List (List (Nat × Nat)) :=
 
 def trees : List Code := treeLens.filterMap fun l => match newCode l with | .ok c => some c | .error _ => none
 
-/-- run an operation list on the buffered model -/
-def runBuf (ops : List String) (s : BitBuf) : List String :=
-  match ops with
-  | [] => []
-  | op :: rest =>
-    let r : Option (Nat × BitBuf) :=
-      if op.startsWith "r" then ((op.drop 1).toString.toNat?).bind fun n => s.read n
-      else if op == "b" then s.read 1
-      else if op.startsWith "h" then
-        ((op.drop 1).toString.toNat?).bind fun k => (trees[k]?).bind fun c => s.readSym c
-      else none
-    match r with
-    | some (v, s') => toString v :: runBuf rest s'
-    | none => ["EOF"]
+/-- an operation of the harness: `r<n>` fixed-width field, `b` single bit, `h<k>` symbol of the k-th code -/
+def parseOp (op : String) : Option BOp :=
+  if op.startsWith "r" then ((op.drop 1).toString.toNat?).map BOp.read
+  else if op == "b" then some (BOp.read 1)
+  else if op.startsWith "h" then ((op.drop 1).toString.toNat?).bind fun k => (trees[k]?).map BOp.sym
+  else none
 
-/-- the same operations on the whole byte string (the ideal reader) -/
-def runIdeal (bytes : Bytes) (ops : List String) (p : Nat) : List String :=
-  match ops with
-  | [] => []
-  | op :: rest =>
-    let r : Option (Nat × Nat) :=
-      if op.startsWith "r" then ((op.drop 1).toString.toNat?).bind fun n => (bufReadAux bytes n 0 0 p).map fun v => (v, p + n)
-      else if op == "b" then (bufReadAux bytes 1 0 0 p).map fun v => (v, p + 1)
-      else if op.startsWith "h" then
-        ((op.drop 1).toString.toNat?).bind fun k => (trees[k]?).bind fun c => bufDecode bytes c.tree (c.tree.height + 1) p
-      else none
-    match r with
-    | some (v, p') => toString v :: runIdeal bytes rest p'
-    | none => ["EOF"]
+def render (l : List (Option Nat)) : List String := l.map fun
+  | some v => toString v
+  | none => "EOF"
+
+/-- run an operation list on the buffered model: `runBufOps` of MediaSan/Vp8l/BitTrace.lean, the function
+    `C19_trace` is about -/
+def runBuf (ops : List BOp) (s : BitBuf) : List String := render (runBufOps ops s)
+
+/-- the same operations on the whole byte string (the ideal reader): `runIdealOps` -/
+def runIdeal (bytes : Bytes) (ops : List BOp) (p : Nat) : List String := render (runIdealOps bytes ops p)
 
 def handleApi (kv : KV) : String :=
   match kv.nat? "cap", kv.hex? "bytes", kv.get? "ops", kv.get? "impl" with
   | some cap, some bytes, some ops, some impl =>
     let id := kv.getD "id" "?"
-    let opl := ops.splitOn ","
+    match (ops.splitOn ",").mapM parseOp with
+    | none => s!"ERR {id} bad-op"
+    | some opl =>
     let ideal := ",".intercalate (runIdeal bytes opl 0)
     let buf := ",".intercalate (runBuf opl (BitBuf.new cap bytes))
     if impl == "panic" then s!"SPEC {id} which=no-panic sig=C19:api:panic impl=panic"
